@@ -1,6 +1,6 @@
 (* Proofs/C18_proofs.v -- lemmas for C18 (runtime histogram re-bucketing, batch histogram, rules). *)
-From Coq Require Import ZArith List Bool Lia Sorting.Sorted.
-From Flocq Require Import IEEE754.BinarySingleNaN.
+From Coq Require Import ZArith List Bool Lia Sorting.Sorted Reals Lra.
+From Flocq Require Import Core.Core IEEE754.BinarySingleNaN.
 From Verif Require Import Base.F64 Base.Str Proofs.F64_order Model.Rebucket.
 Import ListNotations.
 Open Scope Z_scope.
@@ -51,6 +51,77 @@ Proof.
   - rewrite flt_ninf_r in H1. discriminate.
   - rewrite flt_pinf_l in H2. discriminate.
   - apply flt_nonnan in H2. destruct H2. discriminate.
+Qed.
+
+Lemma flt_fin_R x y : is_fin x = true -> is_fin y = true -> flt x y = true -> (B2R x < B2R y)%R.
+Proof.
+  intros Fx Fy H. unfold flt in H. rewrite fcmp_fin in H by assumption.
+  destruct (Rcompare_spec (B2R x) (B2R y)); try discriminate. assumption.
+Qed.
+
+Lemma feq_of_R x y : is_fin x = true -> is_fin y = true -> B2R x = B2R y -> feq x y = true.
+Proof.
+  intros Fx Fy H. unfold feq. rewrite fcmp_fin by assumption. rewrite H, Rcompare_Eq; reflexivity.
+Qed.
+
+Lemma succ_pred_feq prev B : is_fin prev = true -> is_fin B = true -> flt prev B = true ->
+  feq (nextafter_up (fpred B)) B = true.
+Proof.
+  intros Fp FB Hlt. pose proof (flt_fin_R prev B Fp FB Hlt) as HR.
+  pose proof (generic_format_B2R 53 1024 prev) as Gp.
+  pose proof (generic_format_B2R 53 1024 B) as GB.
+  pose proof (abs_B2R_lt_emax 53 1024 prev) as Ap.
+  pose proof (abs_B2R_lt_emax 53 1024 B) as AB.
+  pose proof (@Bpred_correct 53 1024 Hprec_gt0_64 Hprec_emax64 B FB) as PC.
+  change (SpecFloat.fexp 53 1024) with (FLT_exp (3 - 1024 - 53) 53) in *.
+  assert (Hle : (B2R prev <= pred radix2 (FLT_exp (3 - 1024 - 53) 53) (B2R B))%R).
+  { apply pred_ge_gt; try assumption. apply FLT_exp_valid. exact Hprec_gt0_64. }
+  rewrite Rlt_bool_true in PC.
+  2:{ apply Rabs_lt_inv in Ap. lra. }
+  destruct PC as [P1 [P2 _]].
+  pose proof (@Bsucc_correct 53 1024 Hprec_gt0_64 Hprec_emax64 (fpred B) P2) as SC.
+  change (SpecFloat.fexp 53 1024) with (FLT_exp (3 - 1024 - 53) 53) in SC.
+  unfold fpred in SC. rewrite P1 in SC. rewrite succ_pred in SC by (try assumption; apply FLT_exp_valid; exact Hprec_gt0_64).
+  rewrite Rlt_bool_true in SC by (apply Rabs_lt_inv in AB; lra).
+  destruct SC as [S1 [S2 _]].
+  assert (E : nextafter_up (fpred B) = fsucc (fpred B)).
+  { unfold nextafter_up, fpred. destruct (Bpred B) as [s|[]| |s m e p]; try reflexivity; discriminate. }
+  rewrite E. apply feq_of_R; assumption.
+Qed.
+
+Lemma feq_fle_both x y : feq x y = true -> fle x y = true /\ fle y x = true.
+Proof.
+  unfold feq, fle, fcmp. rewrite (Bcompare_swap _ _ x y). destruct (Bcompare x y) as [[]|]; simpl; intros H; try discriminate; auto.
+Qed.
+
+Lemma fle_feq_r h x y : feq x y = true -> fle h x = fle h y.
+Proof.
+  intros H. destruct (feq_fle_both x y H) as [A B].
+  destruct (fle h x) eqn:E1; destruct (fle h y) eqn:E2; try reflexivity.
+  - rewrite (fle_trans h x y E1 A) in E2. discriminate.
+  - rewrite (fle_trans h y x E2 B) in E1. discriminate.
+Qed.
+
+Lemma nextafter_down B prev : flt prev B = true -> nextafter B prev = fpred B.
+Proof.
+  intros H. unfold nextafter. destruct (flt_nonnan prev B H) as [Np NB]. rewrite Np, NB. simpl.
+  assert (E1 : feq B prev = false).
+  { destruct (feq B prev) eqn:E; [|reflexivity]. apply feq_fle_both in E. destruct E as [E _].
+    rewrite (flt_not_fle prev B H) in E. discriminate. }
+  rewrite E1. rewrite (fle_not_flt prev B (flt_fle prev B H)). reflexivity.
+Qed.
+
+(* an input bucket with upper boundary hi lies entirely at or below the exposed bound of the kept boundary B
+   exactly when hi <= B *)
+Lemma entirely_below_exposed hi B prev : is_fin prev = true -> is_pinf B = false -> flt prev B = true ->
+  entirely_below hi (nextafter B prev) = fle hi B.
+Proof.
+  intros Fp HB H. assert (FB : is_fin B = true).
+  { destruct B as [s|[]| |s m e p]; try reflexivity; try discriminate.
+    - rewrite flt_ninf_r in H. discriminate.
+    - apply flt_nonnan in H. destruct H. discriminate. }
+  unfold entirely_below. rewrite (nextafter_down B prev H). apply fle_feq_r.
+  apply (succ_pred_feq prev B Fp FB H).
 Qed.
 
 (* ---------------- sublists and strictly increasing lists ---------------- *)
@@ -551,7 +622,7 @@ Lemma wloop_spec hs : forall cs hbt total sum acc,
   SS hbt -> last hbt fnan = pinf -> length hbt = S (length cs) -> wrap64 total = total ->
   exists w new, wloop hbt hs cs total sum acc = Some w /\
     w_count w = wrap64 (total + sumZ cs) /\
-    w_buckets w = rev acc ++ new /\ length new = pred (length cs) /\
+    w_buckets w = rev acc ++ new /\ length new = Nat.pred (length cs) /\
     Forall (exposed_ok hbt cs total) new.
 Proof.
   induction cs as [|c cs IH]; intros hbt total sum acc Hs Hl Hlen Ht.
@@ -599,6 +670,17 @@ Proof.
   - destruct l as [|x r]; [discriminate|]. simpl in Ha, Hb. eapply IHk; [eapply SS_tail; exact Hs|exact Ha|exact Hb].
 Qed.
 
+Lemma SS_nth_fin : forall k l f a b, SS (f :: l) -> is_fin f = true ->
+  nth_error (f :: l) k = Some a -> nth_error (f :: l) (S k) = Some b -> is_fin a = true.
+Proof.
+  intros [|k] l f a b Hs Hf Ha Hb.
+  - simpl in Ha. inversion Ha; subst. exact Hf.
+  - assert (Hk : exists z, nth_error (f :: l) k = Some z).
+    { destruct (nth_error (f :: l) k) eqn:E; [eauto|]. apply nth_error_None in E.
+      assert (nth_error (f :: l) (S k) <> None) by congruence. apply nth_error_Some in H. lia. }
+    destruct Hk as [z Hz]. eapply between_fin; eapply SS_nth_lt; eauto.
+Qed.
+
 Lemma sumZ_repeat0 n : sumZ (repeat 0 n) = 0.
 Proof. induction n; simpl; lia. Qed.
 Lemma psum_repeat0 k n : psum k (repeat 0 n) = 0.
@@ -606,8 +688,8 @@ Proof. unfold psum. revert k. induction n; intros [|k]; simpl; auto. Qed.
 
 (* what one exposed Write must look like (ib: runtime boundaries, hb: the reduced ones, cs: runtime counts) *)
 Definition bucket_good (ib hb : list f64) (cs : list Z) (p : f64 * Z) : Prop :=
-  exists B prev, In B hb /\ is_pinf B = false /\ flt prev B = true /\ fst p = nextafter B prev /\
-    snd p = wrap64 (count_below (fun hi => fle hi B) cs (tl ib)).
+  exists B prev, In B hb /\ is_pinf B = false /\ is_fin prev = true /\ flt prev B = true /\
+    fst p = nextafter B prev /\ snd p = wrap64 (count_below (fun hi => fle hi B) cs (tl ib)).
 
 Definition write_good (ib hb : list f64) (cs : list Z) (w : wout) : Prop :=
   w_count w = wrap64 (sumZ cs) /\ S (S (length (w_buckets w))) = length hb /\
@@ -657,18 +739,20 @@ Proof.
   destruct (uloop_spec cs (tl ib) hb' (repeat 0 (length hb')) 0 SS_tl nonnan_tl emb_tl)
     as [hc' [E [L [_ [Sm C]]]]].
   { destruct ib; simpl in *; lia. } { rewrite repeat_length. reflexivity. }
-  rewrite E. eexists. eexists. split; [reflexivity|]. cbn [bh_buckets bh_counts bh_has_sum bh_sum].
-  split; [reflexivity|]. rewrite repeat_length in L. split; [exact L|].
-  unfold write. cbn [bh_buckets bh_counts bh_has_sum bh_sum]. rewrite write_loop_wloop. cbn [skipn].
-  match goal with |- context [wloop _ ?hs _ _ ?sm _] =>
-    destruct (wloop_spec hs hc' (f :: hb') 0 sm [] SS_hb) as [w [new [Ew [Cn [Bk [Ln Fa]]]]]] end.
+  rewrite E. rewrite repeat_length in L.
+  set (h' := mkBH (f :: hb') hc' (bh_has_sum h) (if bh_has_sum h then s else bh_sum h)).
+  destruct (wloop_spec (bh_has_sum h') (bh_counts h') (f :: hb') 0
+              (if bh_has_sum h' then bh_sum h' else pzero) [] SS_hb) as [w [new [Ew [Cn [Bk [Ln Fa]]]]]].
   { rewrite last_cons_ne by exact Hhne. exact Hhl. } { simpl. lia. } { reflexivity. }
-  split; [exact Ew|]. simpl in Bk. split; [|split].
-  - rewrite Cn. apply wrap64_eqm. rewrite Z.add_0_l. rewrite sumZ_repeat0 in Sm. exact Sm.
+  exists h', w. split; [reflexivity|]. split; [reflexivity|]. split; [exact L|]. split.
+  { unfold write. rewrite write_loop_wloop. exact Ew. }
+  simpl in Bk, Cn, Ln, Fa. split; [|split].
+  - rewrite Cn. apply wrap64_eqm. rewrite sumZ_repeat0 in Sm. exact Sm.
   - rewrite Bk, Ln, L. simpl. destruct hb'; [congruence|reflexivity].
   - rewrite Bk. eapply Forall_impl; [|exact Fa]. intros p [k [y0 [y1 [H0 [H1 [H2 [H3 H4]]]]]]].
     exists y1, y0. simpl in H1. repeat split; auto.
     + right. eapply nth_error_In; exact H1.
+    + eapply SS_nth_fin; [exact SS_hb|exact Hfin|exact H0|exact H1].
     + eapply SS_nth_lt; [exact SS_hb|exact H0|exact H1].
     + rewrite H4. apply wrap64_eqm. rewrite Z.add_0_l.
       specialize (C k y1 H1). simpl in C. rewrite psum_repeat0 in C. exact C.
@@ -688,3 +772,275 @@ Proof.
     constructor; [exact G|exact Gs].
 Qed.
 End OneUpdate.
+
+(* ---------------- the whole pipeline under the precondition ---------------- *)
+Definition rebucket_facts (u : unit_t) (ib hb : list f64) : Prop :=
+  sublist hb ib /\ strictly_inc hb = true /\ last hb fnan = pinf /\ hd_error hb = first_finite ib /\
+  kept_bound u hb.
+
+Lemma precondition_split u ib ups : precondition u ib ups = true ->
+  runtime_shape ib = true /\ survives u ib = true /\
+  Forall (fun up => S (length (fst up)) = length ib) ups /\
+  Forall (fun up => Forall (fun c => 0 <= c < M64) (fst up)) ups.
+Proof.
+  unfold precondition. intros H. apply andb_prop in H. destruct H as [H H3].
+  apply andb_prop in H. destruct H as [H1 H2]. repeat split; auto.
+  - rewrite forallb_forall in H3. apply Forall_forall. intros up Hup. apply H3 in Hup.
+    apply andb_prop in Hup. destruct Hup as [Hup _]. apply Nat.eqb_eq in Hup. exact Hup.
+  - rewrite forallb_forall in H3. apply Forall_forall. intros up Hup. apply H3 in Hup.
+    apply andb_prop in Hup. destruct Hup as [_ Hup]. rewrite forallb_forall in Hup.
+    apply Forall_forall. intros c Hc. apply Hup in Hc. apply andb_prop in Hc. destruct Hc as [A B].
+    apply Z.leb_le in A. apply Z.ltb_lt in B. lia.
+Qed.
+
+(* the reduction alone, for any skip predicates that never skip +Inf *)
+Lemma rebucket_gen skip2 skip10 u ib :
+  (forall b, skip2 b pinf = false) -> (forall b, skip10 b pinf = false) ->
+  runtime_shape ib = true -> survives u ib = true ->
+  exists red hb, buckets_for_unit_gen skip2 skip10 u ib = Some red /\ strip_ninf red = Some hb /\
+    (2 <= length hb)%nat /\ rebucket_facts u ib hb.
+Proof.
+  intros H2 H10 Hshape Hsurv.
+  destruct (reduce_shape skip2 skip10 H2 H10 u ib Hshape Hsurv)
+    as [pre [f [rest [hb' [Hff [Hib [Hpre [Hfin [Hrne [Hrl [Hred [Hstrip [Hsub [Hhne [Hhl Hkb]]]]]]]]]]]]]]].
+  destruct (shape_split ib Hshape) as [Hinc _]. apply sinc_SS in Hinc.
+  exists (pre ++ f :: hb'), (f :: hb'). split; [exact Hred|]. split; [exact Hstrip|].
+  split. { destruct hb'; [congruence|simpl; lia]. }
+  unfold rebucket_facts. repeat split.
+  - rewrite Hib. destruct Hpre as [-> | ->]; simpl; repeat constructor; exact Hsub.
+  - apply SS_sinc. rewrite Hib in Hinc. eapply (SS_hb pre rest hb' f); eauto.
+  - rewrite last_cons_ne by exact Hhne. exact Hhl.
+  - simpl. symmetry. exact Hff.
+  - exact Hkb.
+Qed.
+
+Lemma run_hist_spec u ib hs ups : precondition u ib ups = true ->
+  exists hb ws, run_hist u ib hs ups = Some (hb, ws) /\ (2 <= length hb)%nat /\ rebucket_facts u ib hb /\
+    Forall2 (fun up w => write_good ib hb (fst up) w) ups ws.
+Proof.
+  intros Hpc. destruct (precondition_split u ib ups Hpc) as [Hshape [Hsurv [Hlens _]]].
+  destruct (reduce_shape (skip_exp f_two) (skip_exp f_ten) (skip_exp_pinf f_two) (skip_exp_pinf f_ten)
+              u ib Hshape Hsurv)
+    as [pre [f [rest [hb' [Hff [Hib [Hpre [Hfin [Hrne [Hrl [Hred [Hstrip [Hsub [Hhne [Hhl Hkb]]]]]]]]]]]]]]].
+  destruct (shape_split ib Hshape) as [Hinc _]. apply sinc_SS in Hinc.
+  assert (Hinc' : SS (pre ++ f :: rest)) by (rewrite <- Hib; exact Hinc).
+  set (h := mkBH (f :: hb') (repeat 0 (length hb')) hs pzero).
+  destruct (run_updates_spec pre rest hb' f Hinc' Hpre Hfin Hrne Hrl Hsub Hhne Hhl ups h)
+    as [ws [Er Gs]]; [reflexivity|apply repeat_length|rewrite <- Hib; exact Hlens|].
+  exists (f :: hb'), ws. split.
+  { unfold run_hist, buckets_for_unit. rewrite Hred. unfold new_batch_histogram. rewrite Hstrip.
+    fold h. rewrite Hib. rewrite Er. reflexivity. }
+  split. { destruct hb'; [congruence|simpl; lia]. }
+  split.
+  { unfold rebucket_facts. repeat split.
+    - rewrite Hib. destruct Hpre as [-> | ->]; simpl; repeat constructor; exact Hsub.
+    - apply SS_sinc. eapply (SS_hb pre rest hb' f); eauto.
+    - rewrite last_cons_ne by exact Hhne. exact Hhl.
+    - simpl. symmetry. exact Hff.
+    - exact Hkb. }
+  rewrite Hib. exact Gs.
+Qed.
+
+Lemma Forall2_impl {A B} (P Q : A -> B -> Prop) la lb :
+  (forall a b, P a b -> Q a b) -> Forall2 P la lb -> Forall2 Q la lb.
+Proof. intros H. induction 1; constructor; auto. Qed.
+
+(* ---- the property clauses ---- *)
+
+(* re-bucketing keeps a strictly increasing sublist of the input boundaries; the first finite boundary is
+   kept and +Inf stays last; for seconds nothing finite above 1 is kept. Holds for every skip predicate
+   that never skips +Inf (so independently of the floating-point arithmetic inside it). *)
+Lemma rebucket_sublist_strict_lemma : forall skip2 skip10 u ib,
+  (forall b, skip2 b pinf = false) -> (forall b, skip10 b pinf = false) ->
+  runtime_shape ib = true -> survives u ib = true ->
+  exists red hb, buckets_for_unit_gen skip2 skip10 u ib = Some red /\ strip_ninf red = Some hb /\
+    sublist hb ib /\ strictly_inc hb = true /\ last hb fnan = pinf /\ hd_error hb = first_finite ib /\
+    (u = USeconds -> Forall (fun b => b = pinf \/ fle b fone = true) hb).
+Proof.
+  intros skip2 skip10 u ib H2 H10 Hs Hv.
+  destruct (rebucket_gen skip2 skip10 u ib H2 H10 Hs Hv) as [red [hb [A [B [_ [C [D [E [F G]]]]]]]]].
+  exists red, hb. repeat split; auto.
+Qed.
+
+Lemma rebucket_real_skip_lemma : forall base b, skip_exp base b pinf = false.
+Proof. intros. apply skip_exp_pinf. Qed.
+
+Lemma no_index_out_of_range_lemma : forall u ib hs ups,
+  precondition u ib ups = true -> exists hb ws, run_hist u ib hs ups = Some (hb, ws).
+Proof.
+  intros u ib hs ups H. destruct (run_hist_spec u ib hs ups H) as [hb [ws [E _]]]. exists hb, ws. exact E.
+Qed.
+
+Lemma update_conserves_total_lemma : forall u ib hs ups hb ws,
+  precondition u ib ups = true -> run_hist u ib hs ups = Some (hb, ws) ->
+  Forall2 (fun up w => w_count w = wrap64 (sumZ (fst up))) ups ws.
+Proof.
+  intros u ib hs ups hb ws H E. destruct (run_hist_spec u ib hs ups H) as [hb' [ws' [E' [_ [_ G]]]]].
+  rewrite E in E'. inversion E'; subst. eapply Forall2_impl; [|exact G]. intros a b [X _]. exact X.
+Qed.
+
+Lemma sumZ_nonneg l : Forall (fun c => 0 <= c < M64) l -> 0 <= sumZ l.
+Proof. induction 1; simpl; lia. Qed.
+
+Lemma update_conserves_total_exact_lemma : forall u ib hs ups hb ws,
+  precondition u ib ups = true -> run_hist u ib hs ups = Some (hb, ws) ->
+  Forall2 (fun up w => sumZ (fst up) < M64 -> w_count w = sumZ (fst up)) ups ws.
+Proof.
+  intros u ib hs ups hb ws H E. pose proof (update_conserves_total_lemma u ib hs ups hb ws H E) as G.
+  destruct (precondition_split u ib ups H) as [_ [_ [_ Hr]]].
+  clear H E. revert Hr. induction G as [|up w ups' ws' Huw G IH]; intros Hr; constructor.
+  - intros Hlt. rewrite Huw. unfold wrap64. apply Z.mod_small. inversion Hr; subst.
+    split; [apply sumZ_nonneg; assumption|exact Hlt].
+  - apply IH. inversion Hr; assumption.
+Qed.
+
+Lemma cumulative_is_entirely_below_lemma : forall u ib hs ups hb ws,
+  precondition u ib ups = true -> run_hist u ib hs ups = Some (hb, ws) ->
+  Forall2 (fun up w =>
+     S (S (length (w_buckets w))) = length hb /\
+     Forall (fun p => exists B prev, In B hb /\ is_pinf B = false /\ is_fin prev = true /\ flt prev B = true /\
+                        fst p = nextafter B prev /\
+                        snd p = wrap64 (count_below (fun hi => fle hi B) (fst up) (tl ib)))
+            (w_buckets w)) ups ws.
+Proof.
+  intros u ib hs ups hb ws H E. destruct (run_hist_spec u ib hs ups H) as [hb' [ws' [E' [_ [_ G]]]]].
+  rewrite E in E'. inversion E'; subst. eapply Forall2_impl; [|exact G]. intros a b [_ [X Y]]. split; assumption.
+Qed.
+
+(* ---------------- the model satisfies the executable specification checker ---------------- *)
+Lemma is_sublist_PQ : forall b,
+  (forall a x, is_sublist (x :: a) b = true -> is_sublist a b = true) /\
+  (forall a y, is_sublist a b = true -> is_sublist a (y :: b) = true).
+Proof.
+  assert (PQ : forall b, (forall a x, is_sublist (x :: a) b = true -> is_sublist a b = true) ->
+                         (forall a y, is_sublist a b = true -> is_sublist a (y :: b) = true)).
+  { intros b P [|a0 a] y H; [reflexivity|]. simpl. destruct (fbits_eq a0 y); [eapply P; exact H|exact H]. }
+  induction b as [|y b [P Q]].
+  - assert (P0 : forall a x, is_sublist (x :: a) [] = true -> is_sublist a [] = true) by (intros; discriminate).
+    split; [exact P0|apply PQ; exact P0].
+  - assert (P1 : forall a x, is_sublist (x :: a) (y :: b) = true -> is_sublist a (y :: b) = true).
+    { intros a x H. simpl in H. destruct (fbits_eq x y).
+      - apply Q. exact H.
+      - apply Q. eapply P. exact H. }
+    split; [exact P1|apply PQ; exact P1].
+Qed.
+
+Lemma sublist_is_sublist a b : sublist a b -> is_sublist a b = true.
+Proof.
+  induction 1 as [l|x a b H IH|y a b H IH].
+  - destruct l; reflexivity.
+  - simpl. unfold fbits_eq. rewrite Z.eqb_refl. exact IH.
+  - apply (proj2 (is_sublist_PQ b)). exact IH.
+Qed.
+
+Lemma rebucket_facts_ok u ib hb : (2 <= length hb)%nat -> rebucket_facts u ib hb -> rebucket_ok u ib hb = true.
+Proof.
+  intros Hlen [Hsub [Hinc [Hl [Hhd Hkb]]]].
+  destruct hb as [|h0 r]; [simpl in Hlen; lia|]. simpl in Hhd.
+  assert (Hsec : match u with USeconds => forallb (fun b => is_pinf b || fle b fone) (h0 :: r) | _ => true end = true).
+  { destruct u; try reflexivity.
+    apply forallb_forall. intros b Hb. specialize (Hkb eq_refl). rewrite Forall_forall in Hkb.
+    destruct (Hkb b Hb) as [-> | E]; [reflexivity|]. rewrite E. apply orb_true_r. }
+  unfold rebucket_ok. rewrite (sublist_is_sublist _ ib Hsub), Hinc, Hl, <- Hhd, Hsec.
+  unfold fbits_eq. rewrite Z.eqb_refl. reflexivity.
+Qed.
+
+Lemma count_below_ext t1 t2 cs l : (forall hi, t1 hi = t2 hi) -> count_below t1 cs l = count_below t2 cs l.
+Proof. intros H. revert l. induction cs as [|c cs IH]; intros [|x l]; simpl; auto. rewrite H, IH. reflexivity. Qed.
+
+Lemma write_good_ok ib hb cs w : write_good ib hb cs w -> write_ok ib cs w = true.
+Proof.
+  intros [Hc [_ Hb]]. unfold write_ok. rewrite Hc, Z.eqb_refl. simpl.
+  apply forallb_forall. intros p Hp. rewrite Forall_forall in Hb.
+  destruct (Hb p Hp) as [B [prev [_ [HB [Fp [Hlt [Hf Hs]]]]]]].
+  rewrite Hs, Hf. apply Z.eqb_eq. f_equal. apply count_below_ext. intros hi.
+  symmetry. apply entirely_below_exposed; assumption.
+Qed.
+
+Lemma Forall2_forallb_combine {A B} (P : A -> B -> Prop) (g : A * B -> bool) la lb :
+  (forall a b, P a b -> g (a, b) = true) -> Forall2 P la lb -> forallb g (combine la lb) = true.
+Proof. intros H. induction 1; simpl; [reflexivity|]. rewrite (H _ _ H0), IHForall2. reflexivity. Qed.
+
+Lemma Forall2_len {A B} (P : A -> B -> Prop) la lb : Forall2 P la lb -> length lb = length la.
+Proof. induction 1; simpl; congruence. Qed.
+
+Lemma model_satisfies_spec_lemma : forall u ib hs ups, spec_ok u ib ups (run_hist u ib hs ups) = true.
+Proof.
+  intros u ib hs ups. unfold spec_ok. destruct (precondition u ib ups) eqn:Hpc; [|reflexivity].
+  destruct (run_hist_spec u ib hs ups Hpc) as [hb [ws [E [Hlen [Hf G]]]]]. rewrite E.
+  rewrite (rebucket_facts_ok u ib hb Hlen Hf). simpl.
+  rewrite (Forall2_len _ _ _ G), Nat.eqb_refl. simpl.
+  eapply Forall2_forallb_combine; [|exact G]. intros a b H. simpl. eapply write_good_ok. exact H.
+Qed.
+
+(* ---------------- rules ---------------- *)
+Lemma rule_semantics_lemma : forall rules, match_rules rules = rule_spec rules.
+Proof.
+  intros rules. unfold match_rules, rule_spec. rewrite <- fold_left_rev_right.
+  induction (rev rules) as [|r l IH]; [reflexivity|].
+  simpl. destruct (fst r); [reflexivity|exact IH].
+Qed.
+
+(* a rule list ending in a matching rule is decided by that rule; without any matching rule: denied *)
+Lemma rule_last_wins_lemma : forall rules m d, match_rules (rules ++ [(m, d)]) = if m then d else match_rules rules.
+Proof. intros. unfold match_rules. rewrite fold_left_app. reflexivity. Qed.
+
+Lemma rule_default_deny_lemma : forall rules, Forall (fun r => fst r = false) rules -> match_rules rules = true.
+Proof.
+  intros rules H. rewrite rule_semantics_lemma. unfold rule_spec.
+  assert (E : find (fun r : bool * bool => fst r) (rev rules) = None).
+  { rewrite Forall_forall in H.
+    assert (G : forall x, In x (rev rules) -> fst x = false) by (intros x Hx; apply in_rev in Hx; auto).
+    induction (rev rules) as [|r l IH]; [reflexivity|]. simpl. rewrite (G r) by (left; reflexivity).
+    apply IH. intros x Hx. apply G. right. exact Hx. }
+  rewrite E. reflexivity.
+Qed.
+
+Lemma filter_sublist {A} (p : A -> bool) l : sublist (filter p l) l.
+Proof. induction l; simpl; [constructor|]. destruct (p a); constructor; assumption. Qed.
+
+Lemma sublist_map {A B} (g : A -> B) a b : sublist a b -> sublist (map g a) (map g b).
+Proof. induction 1; simpl; constructor; auto. Qed.
+
+(* the exposed descriptions keep the order of metrics.All() and are exactly the not-denied ones *)
+Lemma match_all_order_lemma : forall (A : Type) (all : list (A * list (bool * bool))),
+  sublist (match_all all) (map fst all) /\
+  forall d, In d (filter (fun d => negb (match_rules (snd d))) all) <-> In d all /\ rule_spec (snd d) = false.
+Proof.
+  intros A all. split.
+  - unfold match_all. apply sublist_map. apply filter_sublist.
+  - intros d. rewrite filter_In, rule_semantics_lemma. rewrite negb_true_iff. reflexivity.
+Qed.
+
+(* metric i of the exposed set reads sample i of the buffer *)
+Lemma build_sets_app {A} : forall (descs : list (A * bool)) sb ms,
+  exists x, build_sets descs sb ms = (sb ++ x, ms ++ x).
+Proof.
+  induction descs as [|[d ok] r IH]; intros sb ms.
+  - exists []. simpl. rewrite !app_nil_r. reflexivity.
+  - simpl. destruct ok.
+    + destruct (IH (sb ++ [d]) (ms ++ [d])) as [x E]. exists (d :: x). rewrite E, <- !app_assoc. reflexivity.
+    + apply IH.
+Qed.
+
+Lemma index_correspondence_lemma : forall (A : Type) (descs : list (A * bool)) (extra : list A) sb ms,
+  sample_buf_of descs extra = (sb, ms) ->
+  forall i, (i < length ms)%nat -> nth_error sb i = nth_error ms i.
+Proof.
+  intros A descs extra sb ms H i Hi. unfold sample_buf_of in H.
+  destruct (build_sets_app descs [] []) as [x E]. rewrite E in H. simpl in H. inversion H; subst.
+  rewrite nth_error_app1 by exact Hi. reflexivity.
+Qed.
+
+(* the hypotheses are satisfiable: a runtime-like seconds histogram with -Inf first *)
+Definition ex_ib : list f64 := [ninf; of_Z 0; of_ZE 1 (-10); of_ZE 1 (-9); of_ZE 1 (-3); of_ZE 1 (-1); of_Z 1; of_Z 5; of_Z 50; pinf].
+Definition ex_ups : list (list Z * f64) := [([1; 2; 3; 4; 5; 6; 7; 8; 9], pzero); ([1; 2; 3; 4; 5; 6; 7; 8; 2 ^ 64 - 1], pzero)].
+
+Lemma example_precondition_lemma : precondition USeconds ex_ib ex_ups = true /\ precondition UBytes ex_ib ex_ups = true.
+Proof. split; vm_compute; reflexivity. Qed.
+
+Lemma example_run_lemma :
+  option_map (fun o => (length (fst o), map w_count (snd o), map (fun w => map snd (w_buckets w)) (snd o)))
+             (run_hist USeconds ex_ib false ex_ups)
+  = Some (4%nat, [45; 35], [[3; 10]; [3; 10]]).
+Proof. vm_compute. reflexivity. Qed.
